@@ -98,7 +98,14 @@ def gen_params(rng, kind=None):
                 c = rng.choice([0.5, 0.6, 0.75, 0.9, 0.3, round(rng.uniform(0.05, 0.95), 2)])
                 o = [x for x in blocs if x != b][0]
                 p["cohesion"][b] = {b: c, o: 1 - c}
+        if kind in TWO_BLOC and rng.random() < 0.12:
+            # full cohesion of one bloc (0 or 1 exactly), for either bloc
+            b = rng.choice(blocs)
+            o = [x for x in blocs if x != b][0]
+            c = rng.choice([1.0, 0.0])
+            p["cohesion"][b] = {b: c, o: 1 - c}
         p["shuffle_keys"] = rng.random() < 0.6
+        p["shuffle_rows"] = rng.random() < 0.5
         if kind == "short_pl":
             p["L"] = rng.randint(1, len(names))
         if kind == "cumulative":
@@ -153,6 +160,11 @@ def all_cands(p):
 
 # ----------------------------------------------------------------------------- implementation side
 
+# generators whose *recorded draws* (not the law of the ballots) depend on the key order of a cohesion row: the coin
+# flip -> slate assignment of sample_cohesion_ballot_types follows the row's own order
+ORDER_SENSITIVE = ("slate_pl",)
+
+
 def build(vk, p, tmpdir=None):
     """construct the implementation's generator object for params p"""
     from votekit import ballot_generator as BG
@@ -165,11 +177,23 @@ def build(vk, p, tmpdir=None):
                 # the key order of the interval dict need not be the order of the slate list
                 random.Random(f"{p['seed']}/{b}/{s}").shuffle(items)
             return dict(items)
-        pib = {b: {s: PreferenceInterval(interval_dict(b, s)) for s in p["blocs"]} for b in p["blocs"]}
-        # every dict is built in the order of p["blocs"], so a case replays identically after a JSON round trip
+        def order(tag):
+            # the key order of the nested parameter dicts carries no meaning (entries are looked up by bloc / slate
+            # name): half of the cases list the rows and columns of the cohesion and interval tables in another order
+            # than bloc_voter_prop (e.g. every bloc's own slate first)
+            ks = list(p["blocs"])
+            if p.get("shuffle_rows") and kind not in ORDER_SENSITIVE:
+                random.Random(f"{p['seed']}/rows/{tag}").shuffle(ks)
+            return ks
+        # (the inner dicts of pref_intervals_by_bloc stay in bloc order: CambridgeSampler pairs `.values()` of that dict
+        # with (cohesion, 1 - cohesion) positionally - see DESIGN.md section 11 - which changes the recorded calls, not
+        # the law of the ballots)
+        pib = {b: {s: PreferenceInterval(interval_dict(b, s)) for s in p["blocs"]} for b in order("pi")}
+        # bloc_voter_prop and slate_to_candidates are built in the order of p["blocs"] (the order in which the generators
+        # go through blocs and slates), so a case replays identically after a JSON round trip
         kw = dict(slate_to_candidates={b: list(p["slates"][b]) for b in p["blocs"]}, pref_intervals_by_bloc=pib,
                   bloc_voter_prop={b: p["props"][b] for b in p["blocs"]},
-                  cohesion_parameters={b: {s: p["cohesion"][b][s] for s in p["blocs"]} for b in p["blocs"]})
+                  cohesion_parameters={b: {s: p["cohesion"][b][s] for s in order(f"co/{b}")} for b in order("co")})
         if kind == "pl":
             return BG.name_PlackettLuce(**kw)
         if kind == "short_pl":
